@@ -255,6 +255,34 @@ func genMacroShape(g *gen) {
 					}
 					// x.parent[...] or an assignment whose left side goes through .parent.
 				}
+				// for c := ctx; c != nil; c = c.parent { ... }: a walk up the chain; it may read the contexts it
+				// visits (c.context[name]) and must not assign through c
+				if fs, ok := n.(*ast.ForStmt); ok && fs.Post != nil {
+					if pa, ok := fs.Post.(*ast.AssignStmt); ok && len(pa.Lhs) == 1 && len(pa.Rhs) == 1 {
+						if id, ok := pa.Lhs[0].(*ast.Ident); ok {
+							if sel, ok := pa.Rhs[0].(*ast.SelectorExpr); ok && sel.Sel.Name == "parent" && isIdent(sel.X, id.Name) {
+								uses++
+								ast.Inspect(fs.Body, func(m ast.Node) bool {
+									if as, ok := m.(*ast.AssignStmt); ok {
+										for _, l := range as.Lhs {
+											if _, plain := l.(*ast.Ident); plain {
+												continue
+											}
+											// an assignment to something reached through the visited context
+											ast.Inspect(l, func(k ast.Node) bool {
+												if isIdent2(k, id.Name) {
+													okAll = false
+												}
+												return true
+											})
+										}
+									}
+									return true
+								})
+							}
+						}
+					}
+				}
 				if as, ok := n.(*ast.AssignStmt); ok {
 					for _, l := range as.Lhs {
 						through := false
@@ -381,4 +409,9 @@ func genMacroShape(g *gen) {
 		"binding_three_way": threeWay, "parent_read_only": parentRO, "import_renders_whole": importWhole,
 		"macro_tag_by_expression_lexer": macroTagLexer}
 	g.write("MacroShape.v", sb.String())
+}
+
+func isIdent2(n ast.Node, name string) bool {
+	id, ok := n.(*ast.Ident)
+	return ok && id.Name == name
 }
